@@ -54,11 +54,12 @@ def main():
             if rc0 != 0:
                 print(out0[-600:])
             if ok:
-                dest = '/verif/seeded/%s-%s' % (pid, x)
+                shift = int(os.environ.get('SEED_ROUND', '1')) - 1
+                dest = '/verif/seeded/%s-%s' % (pid, chr(ord(x) + 2 * shift))
                 os.makedirs(dest, exist_ok=True)
                 shutil.copy(tmpd, dest + '/patch.diff')
                 shutil.copy(d + '/demo.py', dest + '/demo.py')
-                meta2 = {'property': pid, 'summary': meta.get('summary'), 'needs': meta.get('needs'),
+                meta2 = {'property': pid, 'round': int(os.environ.get('SEED_ROUND', '1')), 'summary': meta.get('summary'), 'needs': meta.get('needs'),
                          'agent_ran': meta.get('ran'),
                          'confirmed': ran, 'confirmed_against': sh('git -C /repo rev-parse --short HEAD')[1].strip(),
                          'demo_failure_tail': out1[-400:]}
